@@ -107,7 +107,15 @@ def check_class(prog, rep, modname, cname):
     from ..facts import path_returns, split_ifexp, type_facts
 
     def lookup_gen(v):
-        """(generator, has default) when v is next(<gen over the items>[, None])"""
+        """(generator, has default) when v is next(<gen over the items>[, None]); also self.X[next(i for i, e in enumerate(self.X) if c)]:
+        the element at the first matching position is the first matching element"""
+        if isinstance(v, ast.Subscript) and is_self_attr(v.value) and isinstance(v.slice, ast.Call) and norm(v.slice.func) == "next" and len(v.slice.args) == 1 \
+                and isinstance(v.slice.args[0], ast.GeneratorExp) and len(v.slice.args[0].generators) == 1:
+            g = v.slice.args[0].generators[0]
+            if isinstance(g.iter, ast.Call) and norm(g.iter.func) == "enumerate" and len(g.iter.args) == 1 and norm(g.iter.args[0]) == norm(v.value) \
+                    and isinstance(g.target, ast.Tuple) and len(g.target.elts) == 2 and norm(v.slice.args[0].elt) == norm(g.target.elts[0]):
+                gen = ast.GeneratorExp(elt=g.target.elts[1], generators=[ast.comprehension(target=g.target.elts[1], iter=g.iter.args[0], ifs=g.ifs, is_async=0)])
+                return gen, False
         if isinstance(v, ast.Call) and norm(v.func) == "next" and v.args and isinstance(v.args[0], (ast.GeneratorExp, ast.ListComp)):
             if len(v.args) == 1 and not v.keywords:
                 return v.args[0], False
